@@ -3,6 +3,7 @@
 package route
 
 import (
+	"github.com/tinylib/msgp/msgp"
 	"github.com/honeycombio/refinery/collect"
 	"github.com/honeycombio/refinery/config"
 	zz "github.com/honeycombio/refinery/internal/zzverif"
@@ -120,9 +121,10 @@ func Harness_C19_C17_route() {
 	hasTrace := zz.NondetBool("hasTraceID")
 	isProbe := zz.NondetBool("isProbe")
 	fields := map[string]any{"f": int64(7)}
+	idFields := []string{"trace.trace_id", "traceId"}
+	idx := zz.Choose("traceIDField", 2)
 	if hasTrace {
-		idField := []string{"trace.trace_id", "traceId"}[zz.Choose("traceIDField", 2)]
-		fields[idField] = "T1"
+		fields[idFields[idx]] = "T1"
 	}
 	if isProbe {
 		fields["meta.refinery.probe"] = true
@@ -130,6 +132,37 @@ func Harness_C19_C17_route() {
 	rate := zz.NondetUint("clientRate")
 	zz.Assume(rate < 1<<31)
 	ev := v.event(fields, rate)
+	if zz.NondetBool("msgpackBody") {
+		// the same event as it arrives in a msgpack batch, through the ingestion decoder; the other
+		// configured trace-ID field may follow, empty (it must not erase the ID found first)
+		emptyOther := zz.And(hasTrace, zz.NondetBool("emptyOtherIDField"))
+		n := 1
+		if hasTrace {
+			n++
+		}
+		if emptyOther {
+			n++
+		}
+		if isProbe {
+			n++
+		}
+		b := msgp.AppendMapHeader(nil, uint32(n))
+		b = msgp.AppendInt64(msgp.AppendString(b, "f"), 7)
+		if hasTrace {
+			b = msgp.AppendString(msgp.AppendString(b, idFields[idx]), "T1")
+		}
+		if emptyOther {
+			b = msgp.AppendString(msgp.AppendString(b, idFields[1-idx]), "")
+		}
+		if isProbe {
+			b = msgp.AppendBool(msgp.AppendString(b, "meta.refinery.probe"), true)
+		}
+		cu := types.NewCoreFieldsUnmarshaler(types.CoreFieldsUnmarshalerOptions{Config: v.cfg, APIKey: "key1", Env: "env", Dataset: "ds1"})
+		p := types.NewPayload(v.cfg, nil)
+		rest, derr := cu.UnmarshalMsgpFirstEvent(b, &p)
+		zz.Assert(derr == nil && len(rest) == 0, "a well-formed msgpack event is decoded")
+		ev.Data = p
+	}
 	err := v.r.processEvent(ev, "req")
 	zz.Assert(err == nil, "a well-formed event is accepted")
 	up, pr := v.up.count(ev), v.peer.count(ev)
